@@ -4,6 +4,7 @@ import (
 	"context"
 	"fmt"
 	"google.golang.org/genproto/googleapis/api/serviceconfig"
+	"google.golang.org/grpc"
 	"google.golang.org/protobuf/reflect/protoreflect"
 	"net/http/httptest"
 	"strings"
@@ -509,7 +510,10 @@ func c16API(c *Ctx) {
 	}
 	for _, onEmpty := range []bool{false, true} {
 		for _, bad := range badRules {
-			for _, badFirst := range []bool{false, true} {
+			for bi := 0; bi < 4; bi++ {
+				// the method that carries the bad rule is unary, or a server stream (registerService
+				// registers a service's streaming methods after ALL its unary ones)
+				badFirst, badStream := bi%2 == 1, bi >= 2
 				if onEmpty && bad.what == "conflict" {
 					continue // nothing to conflict with
 				}
@@ -521,6 +525,19 @@ func c16API(c *Ctx) {
 				if badFirst {
 					b0, b1 = &MethodSpec{Service: "Bad", Name: "B0", In: "Req", Out: "Reply", Unary: echo, Rule: bad.rule}, &MethodSpec{Service: "Bad", Name: "B1", In: "Req", Out: "Reply", Unary: echo, Rule: getRule("/c16/{name}/messages/special")}
 				}
+				if badStream {
+					for _, b := range []*MethodSpec{b0, b1} {
+						if b.Rule == bad.rule {
+							b.Unary, b.ServerStream = nil, true
+							b.Stream = func(fx *Fixture, ms *MethodSpec, st grpc.ServerStream) error {
+								if err := st.RecvMsg(fx.NewMsg("Req")); err != nil {
+									return err
+								}
+								return st.SendMsg(fx.NewMsg("Reply"))
+							}
+						}
+					}
+				}
 				fx, err := NewFixture([]*MethodSpec{
 					{Service: "Good", Name: "A", In: "Req", Out: "Reply", Unary: echo, Rule: goodVar},
 					{Service: "Good", Name: "A2", In: "Req", Out: "Reply", Unary: echo, Rule: getRule("/c16/{name}/two")},
@@ -531,7 +548,7 @@ func c16API(c *Ctx) {
 					c.Note("c16 fixture: " + err.Error())
 					continue
 				}
-				in := fmt.Sprintf("bad=%s badFirst=%v onEmptyMux=%v", bad.what, badFirst, onEmpty)
+				in := fmt.Sprintf("bad=%s badFirst=%v badMethodIsAStream=%v onEmptyMux=%v", bad.what, badFirst, badStream, onEmpty)
 				if !onEmpty {
 					if err, pn := fx.RegisterOne("Good"); err != nil || pn != nil {
 						c.SpecFail("api-atomic", in, fmt.Sprint(err, pn), "Good registers", "C16/api/good-refused", "valid service refused")
